@@ -197,6 +197,50 @@ def run(ctx):
                                                  "both engines)", "series": series, "ndim": nd, "got": list(m),
                                        "expected": single})
                 break
+    # every option reaches the per-pair routine through every matrix entry point (unequal lengths, all options)
+    for k in range(120 if ctx.thorough else 30):
+        nser = rng.randint(2, 5)
+        nd = rng.choice([1, 2, 3])
+        series = [[rng.randint(-3, 3) for _ in range(rng.randint(1, 7) * nd)] for _ in range(nser)]
+        datal = [np.array(s, dtype=float).reshape((-1, nd)) for s in series]
+        kw = {}
+        if rng.random() < 0.5:
+            kw["window"] = rng.choice([1, 2, 3])
+        if rng.random() < 0.4:
+            kw["penalty"] = rng.choice([0.5, 1.0, 2.0])
+        if rng.random() < 0.5:
+            kw["max_length_diff"] = rng.choice([1, 2, 3])
+        if rng.random() < 0.3:
+            kw["max_step"] = rng.choice([2.5, 4.5])
+        if rng.random() < 0.3:
+            kw["max_dist"] = rng.choice([2.25, 4.25, 6.25])
+        if rng.random() < 0.25:
+            kw["psi"] = 1 if min(len(x) for x in datal) > 1 else 0
+        if rng.random() < 0.3:
+            kw["inner_dist"] = "euclidean"
+        res.evaluations += 1
+        res.nontrivial.add(repr(("dm-options", series, sorted(kw.items()))))
+        res.hit("matrix_option_forwarding")
+        single = [impl.canon(float(dtw_ndim.distance(datal[r], datal[c], **kw)))
+                  for r in range(nser) for c in range(r + 1, nser)]
+        routes = {"distance_matrix python": lambda: dtw_ndim.distance_matrix(datal, ndim=nd, compact=True, **kw),
+                  "distance_matrix(use_c)": lambda: dtw_ndim.distance_matrix(datal, ndim=nd, compact=True, use_c=True, **kw),
+                  "distance_matrix_fast": lambda: dtw_ndim.distance_matrix_fast(datal, ndim=nd, compact=True, **kw),
+                  "distance_matrix_fast(parallel)": lambda: dtw_ndim.distance_matrix_fast(datal, ndim=nd, compact=True,
+                                                                                          parallel=True, **kw)}
+        for name, fn in routes.items():
+            try:
+                m = [impl.canon(float(x)) for x in fn()]
+            except BaseException as e:
+                if isinstance(e, (KeyboardInterrupt, SystemExit)):
+                    raise
+                res.violations.append({"clause": "ndim distance matrix raised", "route": name, "series": series, "ndim": nd,
+                                       "kwargs": repr(kw), "got": impl.exc_name(e) + ":" + str(e)[:80]})
+                continue
+            if len(m) != len(single) or any(not agree(a, b) for a, b in zip(m, single)):
+                res.violations.append({"clause": "ndim distance matrix == pairwise ndim distances under the same options",
+                                       "route": name, "series": series, "ndim": nd, "kwargs": repr(kw), "got": m,
+                                       "expected": single})
     return res
 
 
